@@ -438,7 +438,11 @@ class LineOnlyReceiver(protocol.Protocol):
                 return self.lineLengthExceeded(line)
             else:
                 self.lineReceived(line)
-        if len(self._buffer) > self.MAX_LENGTH:
+        if len(self._buffer) >= (self.MAX_LENGTH + len(self.delimiter)):
+            # The buffered partial line may end with the beginning of a
+            # delimiter, so only give up once no delimiter arriving later can
+            # leave a line of at most MAX_LENGTH bytes (the same rule as
+            # LineReceiver).
             return self.lineLengthExceeded(self._buffer)
 
     def lineReceived(self, line):
